@@ -60,3 +60,80 @@ fn o15_1_canary() {
     }
     std::mem::forget((bounds, kr));
 }
+
+// ---- O15.3: Strategy::choose on a synthetic version --------------------------------------------
+use crate::compaction::state::CompactionState;
+use crate::compaction::{Choice, CompactionStrategy};
+use crate::table::vk_table_synth::{table, Spec};
+use crate::version::{Level, Run, Version};
+use std::sync::Arc;
+
+fn fake_config() -> &'static crate::Config {
+    // a real (leaked, never initialised, never read) allocation of the right size: the strategies
+    // checked here ignore their `&Config` argument
+    let b: Box<std::mem::MaybeUninit<crate::Config>> = Box::new(std::mem::MaybeUninit::uninit());
+    unsafe { &*(Box::leak(b).as_ptr()) }
+}
+
+/// L0: one run of two disjoint tables (ids 1, 2); L1: one table (id 3). Symbolic 1-byte ranges,
+/// symbolic bounds of every kind, symbolic hidden table.
+#[kani::proof]
+#[kani::unwind(5)]
+#[kani::stub(alloc::sync::Arc::drop_slow, crate::vk_common::arc_drop_slow_stub)]
+#[kani::stub(std::alloc::handle_alloc_error, crate::vk_common::alloc_err_stub)]
+#[kani::stub(alloc::fmt::format, crate::vk_common::format_stub)]
+fn o15_3_drop_range_choose() {
+    let mut r = [(0u8, 0u8); 3];
+    for i in 0..3 {
+        let lo: u8 = kani::any();
+        let hi: u8 = kani::any();
+        kani::assume(lo <= hi);
+        r[i] = (lo, hi);
+    }
+    kani::assume(r[0].1 < r[1].0); // run invariant: sorted, disjoint
+    let l0 = Level::from_runs(vec![Arc::new(Run::new(vec![table(&Spec::new(1, r[0].0, r[0].1)), table(&Spec::new(2, r[1].0, r[1].1))]).unwrap())]);
+    let l1 = Level::from_runs(vec![Arc::new(Run::new(vec![table(&Spec::new(3, r[2].0, r[2].1))]).unwrap())]);
+    let version = Version::from_levels(0, crate::TreeType::Standard, vec![l0, l1],
+        crate::version::BlobFileList::default(), crate::blob_tree::FragmentationMap::default());
+    let lk: u8 = kani::any();
+    let hk: u8 = kani::any();
+    kani::assume(lk <= 2 && hk <= 2);
+    let lb: u8 = kani::any();
+    let hb: u8 = kani::any();
+    let strategy = Strategy::new(OwnedBounds { start: mk(lk, lb), end: mk(hk, hb) });
+    let mut state = CompactionState::default();
+    let hidden: u64 = kani::any();
+    kani::assume(hidden <= 3); // 0 = nothing hidden
+    if hidden > 0 {
+        state.hidden_set_mut().hide([hidden]);
+    }
+
+    let choice = strategy.choose(&version, fake_config(), &state);
+
+    let inside = |k: u8| -> bool {
+        (match lk { 0 => true, 1 => k >= lb, _ => k > lb }) && (match hk { 0 => true, 1 => k <= hb, _ => k < hb })
+    };
+    match &choice {
+        Choice::Drop(ids) => {
+            for i in 0..3 {
+                let id = i as u64 + 1;
+                if ids.contains(&id) {
+                    // soundness: every key a dropped table can hold lies inside the range
+                    assert!(inside(r[i].0) && inside(r[i].1), "drop_range selected a table that holds keys outside the range");
+                    assert!(hidden != id, "drop_range selected a table that is being compacted");
+                } else if inside(r[i].0) && inside(r[i].1) {
+                    panic!("a table fully inside the range was not selected");
+                }
+            }
+        }
+        Choice::DoNothing => {
+            assert!(hidden > 0 && inside(r[hidden as usize - 1].0) && inside(r[hidden as usize - 1].1),
+                "drop_range declined although no selected table is hidden");
+        }
+        _ => panic!("drop_range must only drop"),
+    }
+    kani::cover!(matches!(&choice, Choice::Drop(ids) if ids.len() == 3));
+    kani::cover!(matches!(&choice, Choice::Drop(ids) if ids.len() == 1));
+    kani::cover!(matches!(choice, Choice::DoNothing));
+    std::mem::forget((version, choice, state));
+}
